@@ -238,6 +238,98 @@ def kernel_terms():
     return terms
 
 
+# ---- dividends with a denominator (derivative-like objects, drank >= 1) --------------------------------------------
+DENOM_OPS = ['div_scalar', 'div_number', 'element_div', 'idiv_scalar']
+
+
+def denom_cases(rng, tier):
+    """a Vector / Scalar with denominator axes divided by something with exact zeros: the quotient is masked exactly
+    where the divisor is zero (any component, for element_div) or an operand is masked, and holds no NaN / infinity
+    (seeded change C02-N: element_div raised for a dividend with a denominator once a divisor component was zero)"""
+    out = []
+    for op in DENOM_OPS:
+        for shape in [(), (1,), (3,), (2, 2)]:
+            for denom in [(2,), (3,), (2, 2)]:
+                for zeros in ('none', 'some', 'all'):
+                    for masked in (False, True):
+                        out.append({'kind': 'denom', 'op': op, 'shape': list(shape), 'denom': list(denom), 'zeros': zeros,
+                                    'masked': masked, 'seed': rng.randrange(2 ** 31)})
+    return out if tier != 'quick' else rng.sample(out, 120)
+
+
+def denom_check(c, Pm):
+    import warnings
+    r = np.random.RandomState(c['seed'])
+    shape, denom = tuple(c['shape']), tuple(c['denom'])
+    n = int(np.prod(shape))
+    A = np.round(r.uniform(-4, 4, shape + (3,) + denom), 2)
+    ma = (r.uniform(0, 1, shape) < 0.3) if c['masked'] and shape else False
+    a = Pm.Vector(A.copy(), ma, drank=len(denom))
+    op = c['op']
+    if op == 'element_div':
+        B = np.round(r.uniform(1, 3, shape + (3,)), 2) * r.choice([-1, 1], shape + (3,))
+        if c['zeros'] == 'some':
+            B[r.uniform(0, 1, B.shape) < 0.3] = 0.
+            B[..., 1] = np.where(np.arange(n).reshape(shape) % 2 == 0, 0., B[..., 1]) if shape else 0.
+        elif c['zeros'] == 'all':
+            B[...] = 0.
+        zero = (B == 0).any(axis=-1)
+        b = Pm.Vector(B.copy())
+        Bx = B.reshape(shape + (3,) + (1,) * len(denom))
+    else:
+        B = np.round(r.uniform(1, 3, shape), 2) * r.choice([-1, 1], shape)
+        if c['zeros'] == 'some':
+            B = np.where(np.arange(n).reshape(shape) % 2 == 0, 0., B) if shape else np.float64(0.)
+        elif c['zeros'] == 'all':
+            B = np.zeros(shape)
+        zero = (B == 0)
+        if op == 'div_number' and shape:
+            return None, 'skipped'
+        b = float(B) if op == 'div_number' else Pm.Scalar(np.array(B).copy() if shape else float(B))
+        Bx = np.asarray(B).reshape(shape + (1,) * (1 + len(denom)))
+    want_mask = np.asarray(ma | zero)
+    try:
+        with warnings.catch_warnings(record=True) as w:
+            warnings.simplefilter('always')
+            if op == 'element_div':
+                q = a.element_div(b)
+            elif op == 'idiv_scalar':
+                q = a.copy()
+                q /= b
+            else:
+                q = a / b
+        if w:
+            return 'warning: %s' % str(w[0].message)[:80], 'warning'
+    except Exception as e:      # noqa
+        return 'raised %s: %s' % (type(e).__name__, str(e)[:100]), 'exception'
+    got_mask = np.broadcast_to(q.mask, shape)
+    if not np.array_equal(got_mask, np.broadcast_to(want_mask, shape)):
+        return 'mask %s, expected %s' % (got_mask.tolist(), np.broadcast_to(want_mask, shape).tolist()), 'mask'
+    vals = np.asarray(q.values, float)
+    if vals.shape != A.shape:
+        return 'values shape %s' % (vals.shape,), 'shape'
+    if not np.all(np.isfinite(vals)):
+        return 'non-finite value in the result', 'nonfinite'
+    with np.errstate(all='ignore'):
+        ref = A / np.where(Bx == 0, 1., Bx)
+    sel = ~np.broadcast_to(want_mask, shape)
+    if not np.allclose(vals[sel], ref[sel], rtol=1e-13, atol=0):
+        return 'unmasked quotient differs from the NumPy quotient', 'value'
+    return None, 'masked' if want_mask.any() else 'plain'
+
+
+def denom_part(ctx):
+    Pm = cm.P() if hasattr(cm, 'P') else None
+    for c in denom_cases(ctx.rng, ctx.tier):
+        prob, how = denom_check(c, Pm)
+        if how == 'skipped':
+            continue
+        ctx.note_case({k: c[k] for k in c if k != 'seed'}, how == 'masked')
+        ctx.count('denom_dividend:' + c['op'])
+        if prob:
+            ctx.fail({'kind': 'denom', 'op': c['op'], 'how': how}, c, {'problem': prob})
+
+
 def run(ctx):
     c01.kernel_terms = kernel_terms
     rule = ('restricted-domain operations (%d) x operand class tuples x {int, float} x every assignment of '
@@ -246,8 +338,15 @@ def run(ctx):
             'operand; plus seeded samples of pair-dependent poles (parallel vectors, singular matrices) and of '
             'total functions with derivatives; quick samples 240 layouts per operation, thorough enumerates all; '
             'non-trivial = result partially masked' % len([n for n in cm.RESTRICTED if n in POLES]))
-    return c01.run(ctx, prop=PROP, check_values=True, gen=gen_cases, rule=rule)
+    return c01.run(ctx, prop=PROP, check_values=True, gen=gen_cases, rule=rule, extra=denom_part)
 
 
 def replay(path):
+    import json
+    d = json.load(open(path))
+    if isinstance(d.get('case'), dict) and d['case'].get('kind') == 'denom':
+        prob, how = denom_check(d['case'], cm.P())
+        print({k: v for k, v in d['case'].items()}, '->', prob or 'ok')
+        print('property FAILS on this case' if prob else 'property holds on this case')
+        return 1 if prob else 0
     return c01.replay(path, check_values=True)
